@@ -25,6 +25,29 @@ CHECKS = {
     ),
 }
 
+CHECKS.update({
+    "C02": (
+        "generated integrands; oracle = tau-coefficient of Taylor-mode jets of F(w + tau v) from an independent interpreter",
+        "Hypothesis-generated integrands/differentiation variables/directions (first and second derivatives, components, "
+        "tuples, coefficient_derivatives, several derivative nodes in one DAG); expand_derivatives(derivative(...)) is "
+        "evaluated on random affine cells and compared with the directional derivative computed by truncated Taylor "
+        "arithmetic that shares no rule with apply_derivatives.",
+        "Trusts the reference interpreter (numpy/scipy, sympy-generated derivative tables) and its push-forward table; "
+        "real smooth data; ill-conditioned points discarded; ufl exceptions satisfy the statement.",
+        "4/C02",
+    ),
+    "C03": (
+        "generated expressions; oracle = Taylor-mode jets of the unexpanded expression vs the expanded one",
+        "Hypothesis-generated nestings of grad/div/curl/nabla_grad/nabla_div/.dx over the full grammar on "
+        "interval/triangle/tetrahedron incl. immersed manifolds and Piola-mapped fields; value of the unexpanded "
+        "expression by jets == value after apply_algebra_lowering+apply_derivatives, plus the structural predicate "
+        "that derivatives only act on terminals.",
+        "Trusts the reference interpreter; Grad := ReferenceGrad.K (pseudo-inverse) on affine cells; an exception in "
+        "the generated (must-succeed) grammar is reported as a violation.",
+        "4/C03",
+    ),
+})
+
 NOT_YET = {}
 
 
